@@ -183,6 +183,25 @@ METHODS = {
 STATEMENT_METHODS = sorted(METHODS)
 
 
+def num_spelling(a):
+    """A non-canonical literal spelling of a non-negative int / bigint / float value (None when there is none)."""
+    kind, v = a
+    if kind == "float":
+        if v != v or v in (float("inf"), float("-inf")) or v < 0 or v >= 1e15:
+            return None
+        t = M.fmt_float(v)
+        return t + ".0" if "." not in t else t + "0"
+    if kind == "int" and v >= 0:
+        if v < 100:
+            return "00%d" % v
+        if v >= 1000 and v % 2:
+            return "{:,}".format(v).replace(",", "_")
+        return "0x%x" % v
+    if kind == "bigint" and v >= 0:
+        return "B0x%x" % v if v % 2 else "B00%d" % v
+    return None
+
+
 def spec_of(probe):
     method, recv, args = probe[0], probe[1], probe[2]
     return METHODS[method][1](recv, *args)
@@ -202,6 +221,13 @@ def probe_source(probe, k):
         lines.append("const %s = %s" % (names["r"], lit_str(recv[1])))
     else:
         lines = decls(names["r"], recv[0], recv[1])
+    if form in ("numlit", "bothlit") and method in ("concat", "concat_rev") and args and num_spelling(args[0]) is not None:
+        # round 7: `+` between a string and a NUMBER LITERAL in a non-canonical spelling (2.0, 1.50, 007, 0x10, 1_000):
+        # the text appended is the printed form of the VALUE; string in a variable (numlit) or a literal too (bothlit)
+        if form == "bothlit":
+            names["r"] = lit_str(recv[1])
+        names["a"] = num_spelling(args[0])
+        return lines, METHODS[method][0].format(**names)
     for slot, a in zip("ab", args):
         if form in ("inline", "const") and a[0] == "int" and a[1] >= 0:
             names[slot] = str(a[1])
@@ -529,8 +555,8 @@ def patterns_for(s):
 def catalogue(thorough=False):
     P = []
 
-    def add(method, recv, *args):
-        P.append((method, recv, tuple(args), "cat"))
+    def add(method, recv, *args, origin="cat"):
+        P.append((method, recv, tuple(args), origin))
 
     I = lambda v: ("int", v)
     S = lambda v: ("str", v)
@@ -588,6 +614,11 @@ def catalogue(thorough=False):
             for nv in CONCAT_NUMS:
                 add("concat", r, nv)
                 add("concat_rev", r, nv)
+            for nv in CONCAT_NUMS + [("float", 2.0), ("float", 1.5), ("float", 100.25), ("int", 7), ("int", 255), ("int", 1001), ("bigint", 7), ("bigint", 2 ** 40 + 1)]:
+                if num_spelling(nv) is not None:
+                    for form_ in ("numlit", "bothlit"):
+                        add("concat", r, nv, origin="catalogue:" + form_)
+                        add("concat_rev", r, nv, origin="catalogue:" + form_)
     add("repeat", S(""), I(2147483647))
     add("repeat", S(""), ("bigint", 2 ** 63 - 1))
     add("repeat", S(""), ("bigint", 2 ** 64))
